@@ -8,6 +8,8 @@
   Spec  = MongoModel.Spec.specEval / specFilter / toBool / ord   (the rules of the property text)
   D     = MongoModel.Spec.exprInD    (decidable; its negation is the list of named exclusion
           classes of Spec/ExprDomain.lean)
+  `$sum $avg $min $max` as expression operators: Impl = MongoModel.Expr.groupingList, Spec =
+          MongoModel.Spec.accS / accBareS / extremumS (last section)
 
   `none : Option Val` is "missing" (Python KeyError); `Ctx` is a parser instance
   (ignore_missing_keys, document, variable bindings).
@@ -629,5 +631,199 @@ theorem concat_rejects (vals : List Val) (v : Val) (hv : v ∈ vals) (h1 : isNul
   have : vals.any (fun v => !isNull v && !isStr v) = true :=
     List.any_eq_true.mpr ⟨v, hv, by simp [h1, h2]⟩
   simp [concatOp, this]
+
+/-! ### `$sum $avg $min $max` as expression operators
+
+    Repaired in the library by 94aa9ad (`$min` / `$max` order values of several types by the BSON
+    order instead of raising TypeError) and 2f66991 (`$sum` / `$avg` ignore booleans like every
+    other value that is not a number); findings `minmaxtypes`, `sumbool` (now `fixed`).  The
+    operators are inside the fragment of `eval_eq_spec_partial`; the statements below say what
+    they compute.  `groupingList` is `_GROUPING_OPERATOR_MAP[op]` of the code, `accS` the rule. -/
+
+/-- **sum_avg_spec** (full strength: every list of values, no hypothesis) — `$sum` is the sum of
+    the numbers among the values and `$avg` their mean; what is not a number is ignored. -/
+theorem sum_avg_spec (k : String) (hk : k = "$sum" ∨ k = "$avg") (xs : List Val) :
+    groupingList k xs = accS k (xs.map some) := by
+  have := Proofs.C04.sumavg_eq k hk (xs.map some)
+  rwa [Proofs.C04.nulled_some] at this
+
+/-- a value that is not a number — null, missing, a boolean, a string, a date, an array, a
+    document — changes neither `$sum` nor `$avg` -/
+theorem sum_avg_ignore (k : String) (hk : k = "$sum" ∨ k = "$avg") (v : Option Val)
+    (vs : List (Option Val)) (h : v.bind number = none) : accS k (v :: vs) = accS k vs :=
+  Proofs.C04.sumavg_ignores k hk v vs h
+
+/-- in particular a boolean (it used to count as 0 / 1: finding `sumbool`), null and missing -/
+example : (some (Val.bool true)).bind number = none ∧ (some Val.null).bind number = none ∧
+    (none : Option Val).bind number = none ∧ (some (Val.arr [.int 1])).bind number = none := by
+  simp [number]
+
+/-- `$sum` of integers is their sum, an integer -/
+theorem sum_of_ints (is : List Int) :
+    accS "$sum" (is.map (fun i => some (Val.int i))) = .ok (.int (is.foldl (· + ·) 0)) :=
+  Proofs.C04.sum_ints is
+
+/-- no number among the values: `$sum` is 0 and `$avg` is null -/
+theorem sum_avg_of_no_number (vs : List (Option Val)) (h : numbersOf vs = []) :
+    accS "$sum" vs = .ok (.int 0) ∧ accS "$avg" vs = .ok .null :=
+  Proofs.C04.sumavg_none vs h
+
+example : numbersOf [some (.bool true), none, some .null, some (.str "1")] = [] := by
+  simp [numbersOf, number]
+
+/-- the former counterexample of `sumbool`: `{$sum: [1, true]}` is 1 -/
+example : groupingList "$sum" [.int 1, .bool true] = .ok (.int 1) := by
+  rw [sum_avg_spec "$sum" (Or.inl rfl)]
+  simp [accS, numbersOf, number, sumAll, PyNum.add, PyNum.check, PyNum.toVal, bind, Except.bind]
+
+/-- The full-strength statement for `$min` / `$max`: on every list of values the code computes the
+    first least / greatest, in the BSON order of the rules, of the values that are not null. -/
+def minmax_spec_full : Prop :=
+  ∀ (k : String), k = "$min" ∨ k = "$max" → ∀ xs : List Val,
+    groupingList k xs = accS k (xs.map some)
+
+/-- It is false of the code as it stands (known finding `boolnum`: inside arrays `bson_compare`
+    skips the items that are equal by Python `==`, and `1 == True`): the rules put `[1]` below
+    `[true]`, the code finds them equal and keeps the first. -/
+theorem minmax_spec_full_fails : ¬ minmax_spec_full := by
+  intro h
+  have := h "$max" (Or.inr rfl) [.arr [.int 1], .arr [.bool true]]
+  have h1 : groupingList "$max" [.arr [.int 1], .arr [.bool true]] = .ok (.arr [.int 1]) := by rfl
+  have h2 : accS "$max" ([Val.arr [.int 1], .arr [.bool true]].map some) =
+      .ok (.arr [.bool true]) := by rfl
+  rw [h1, h2] at this
+  simp at this
+
+/-- **minmax_spec** (partial: no reason of the domain applies to a comparison between two of the
+    values that are not null, i.e. they are flat — scalars and arrays of scalars — and no array
+    among them meets a boolean/number clash): `$min` / `$max` is the first least / greatest of
+    the values that are neither null nor missing in the BSON order, null when there is none.
+    Values of several types are ordered by type (finding `minmaxtypes`, repaired). -/
+theorem minmax_spec_partial (k : String) (hk : k = "$min" ∨ k = "$max") (xs : List Val)
+    (h : pairwiseReasons (xs.filter (fun v => !isNull v)) = []) :
+    groupingList k xs = accS k (xs.map some) := by
+  have := Proofs.C04.minmax_eq k hk (xs.map some) (by rwa [Proofs.C04.presentOf_map_some])
+  rwa [Proofs.C04.nulled_some] at this
+
+/-- values of five types, a null among them, and an array -/
+example : pairwiseReasons ([Val.int 1, .str "x", .null, .bool true, .date 0 none,
+    .arr [.int 2, .str "a"], .dbl 3 1].filter (fun v => !isNull v)) = [] := by decide +kernel
+
+/-- the former counterexample of `minmaxtypes`: `{$max: [1, "x", true]}` is `true` -/
+example : groupingList "$max" [.int 1, .str "x", .bool true] = .ok (.bool true) := by rfl
+
+/-- nothing but null and missing values: `$min` and `$max` are null -/
+theorem minmax_of_nothing (k : String) (hk : k = "$min" ∨ k = "$max") (vs : List (Option Val))
+    (h : presentOf vs = []) : accS k vs = .ok .null := Proofs.C04.minmax_none k hk vs h
+
+example : presentOf [none, some .null, none] = [] := by decide +kernel
+
+/-- the rules' `$min` / `$max` is one of the values, -/
+theorem minmax_is_member (isMax : Bool) (r : List Val) (y : Val) :
+    extremumS isMax r y ∈ y :: r := Proofs.C04.extremumS_mem isMax r y
+
+/-- **max_is_greatest** — no value is above the `$max` (flat values), -/
+theorem max_is_greatest (r : List Val) (y : Val) (h : ∀ v ∈ y :: r, cmpFlat v = true) :
+    ∀ v ∈ y :: r, ord v (extremumS true r y) ≠ .gt := Proofs.C04.extremumS_max_ge r y h
+
+/-- **min_is_least** — no value is below the `$min`, -/
+theorem min_is_least (r : List Val) (y : Val) (h : ∀ v ∈ y :: r, cmpFlat v = true) :
+    ∀ v ∈ y :: r, ord (extremumS false r y) v ≠ .gt := Proofs.C04.extremumS_min_le r y h
+
+example : ∀ v ∈ [Val.int 1, .str "x", .arr [.bool true, .null], .dbl 3 1], cmpFlat v = true := by
+  decide +kernel
+
+/-- and of equal values the first wins: a value is replaced only by a strictly better one. -/
+theorem minmax_first_wins (isMax : Bool) (r : List Val) (y : Val)
+    (h : ∀ v ∈ r, (if isMax then ord y v else ord v y) ≠ .lt) : extremumS isMax r y = y :=
+  Proofs.C04.extremumS_first isMax r y h
+
+/-- e.g. `{$max: [1, 1.0]}` is the integer, `{$max: [1.0, 1]}` the double -/
+example : extremumS true [.dbl 1 0] (.int 1) = .int 1 ∧ extremumS true [.int 1] (.dbl 1 0) = .dbl 1 0 :=
+  ⟨rfl, rfl⟩
+
+/-- **bson_order_total_preorder** — "greatest" and "least" make sense: on flat values the BSON
+    order of the rules is oriented (exactly one of `<`, `=`, `>` holds, and swapping the operands
+    swaps the outcome) and transitive. -/
+theorem bson_order_oriented (a b : Val) (ha : cmpFlat a = true) (hb : cmpFlat b = true) :
+    ord b a = (ord a b).swap := Proofs.C04.flat_swap a b ha hb
+
+theorem bson_order_transitive (a b c : Val) (ha : cmpFlat a = true) (hb : cmpFlat b = true)
+    (hc : cmpFlat c = true) (h1 : ord a b ≠ .gt) (h2 : ord b c ≠ .gt) : ord a c ≠ .gt :=
+  Proofs.C04.flat_trans a b c ha hb hc h1 h2
+
+example : cmpFlat (.arr [.int 1, .str "a"]) = true ∧ cmpFlat (.dbl 1 1) = true ∧
+    cmpFlat (.bool false) = true ∧ ord (.dbl 1 1) (.arr [.int 1, .str "a"]) ≠ .gt ∧
+    ord (.arr [.int 1, .str "a"]) (.bool false) ≠ .gt := by decide +kernel
+
+/-- **acc_list_spec** — `{$op: [e₁, …, eₙ]}` for `$sum $avg $min $max` in the computed-field and
+    `$expr` contexts: every operand is evaluated, then the operator ranges over the values — a
+    missing operand (`none`) is skipped like a null one, an operand whose value is an array is one
+    value (it is not a number; it is compared as an array). -/
+theorem acc_list_spec (c : Ctx) (hign : c.ign = true) (k : String)
+    (hk : k = "$sum" ∨ k = "$avg" ∨ k = "$min" ∨ k = "$max")
+    (xs : List Val) (vs : List (Option Val)) (h1 : xs.map (eval c) = vs.map .ok)
+    (hr : strictReasons k vs = []) :
+    eval c (.doc [(k, .arr xs)]) = (accS k vs).map some :=
+  Proofs.C04.acc_list_eval c hign k hk xs vs h1 hr
+
+/-- operands of three types, one of them missing -/
+example : ∃ (c : Ctx) (xs : List Val) (vs : List (Option Val)), c.ign = true ∧
+    xs.map (eval c) = vs.map .ok ∧ strictReasons "$max" vs = [] ∧
+    vs = [some (.int 3), none, some (.str "x"), some (.bool false)] :=
+  ⟨Ctx.init true (.doc [("a", .int 3), ("s", .str "x"), ("f", .bool false)]),
+   [.str "$a", .str "$zz", .str "$s", .str "$f"],
+   [some (.int 3), none, some (.str "x"), some (.bool false)], rfl, by
+     simp [eval, evalBasic, strKind, Ctx.init, splitDotsChars, getDotGen, dget], by decide +kernel,
+   rfl⟩
+
+/-- The full-strength statement for one operand that is not written as a list (`{$sum: "$l"}`):
+    the operator ranges over the elements of an array value, and over the one value otherwise. -/
+def acc_path_spec_full : Prop :=
+  ∀ (c : Ctx) (k : String) (s : String) (a : Option Val),
+    k = "$sum" ∨ k = "$avg" ∨ k = "$min" ∨ k = "$max" → c.ign = true →
+    eval c (.str s) = .ok a → eval c (.doc [(k, .str s)]) = (accBareS k a).map some
+
+/-- It is false of the code as it stands (known finding `accbaremissing`): when the one operand
+    is missing the code answers "missing", the rules 0 for `$sum` (null for the others).  (A
+    value that is neither an array nor missing is the class `scalararg`: the code iterates over
+    it.) -/
+theorem acc_path_spec_full_fails : ¬ acc_path_spec_full := by
+  intro h
+  have h1 : eval (Ctx.init true (.doc [])) (.str "$zz") = .ok none := by
+    simp [eval, evalBasic, strKind, Ctx.init, splitDotsChars, getDotGen, dget]
+  have := h (Ctx.init true (.doc [])) "$sum" "$zz" none (Or.inl rfl) rfl h1
+  rw [Proofs.C04.acc_bare_missing _ "$sum" (Or.inl rfl) "$zz" h1] at this
+  simp [accBareS, accS, numbersOf, sumAll, PyNum.toVal, bind, Except.bind, Except.map] at this
+
+/-- **acc_path_spec** (partial: the value of the operand is an array to whose elements no reason
+    applies). -/
+theorem acc_path_spec_partial (c : Ctx) (hign : c.ign = true) (k : String)
+    (hk : k = "$sum" ∨ k = "$avg" ∨ k = "$min" ∨ k = "$max") (s : String) (ys : List Val)
+    (h1 : eval c (.str s) = .ok (some (.arr ys)))
+    (hr : strictReasons k (ys.map some) = []) :
+    eval c (.doc [(k, .str s)]) = (accBareS k (some (.arr ys))).map some :=
+  Proofs.C04.acc_bare_eval c hign k hk s ys h1 hr
+
+example : ∃ (c : Ctx) (s : String) (ys : List Val), c.ign = true ∧
+    eval c (.str s) = .ok (some (.arr ys)) ∧ strictReasons "$min" (ys.map some) = [] ∧
+    ys = [.int 3, .null, .str "a", .bool true] :=
+  ⟨Ctx.init true (.doc [("l", .arr [.int 3, .null, .str "a", .bool true])]), "$l",
+   [.int 3, .null, .str "a", .bool true], rfl, by
+     simp [eval, evalBasic, strKind, Ctx.init, splitDotsChars, getDotGen, dget], by decide +kernel,
+   rfl⟩
+
+/-- the witnesses of the repaired findings `minmaxtypes` and `sumbool` are inside D, where
+    `eval_eq_spec_partial` gives them the value of the rules; so are the two forms over operands
+    of several types -/
+example :
+    exprInD (.doc [("$max", .arr [.str "$a", .str "x"])]) (.doc [("_id", .int 0), ("a", .int 1)]) = true ∧
+    exprInD (.doc [("$sum", .arr [.str "$a", .str "$f"])])
+      (.doc [("_id", .int 0), ("a", .int 1), ("f", .bool true)]) = true ∧
+    exprInD (.doc [("$min", .str "$x")])
+      (.doc [("_id", .int 0), ("x", .arr [.int 1, .str "x", .bool true, .null, .arr [.int 3]])]) = true ∧
+    exprInD (.doc [("$avg", .arr [.str "$a", .str "$zz", .null, .str "$f", .dbl 5 1])])
+      (.doc [("_id", .int 0), ("a", .int 1), ("f", .bool true)]) = true := by
+  decide +kernel
 
 end MongoModel.Props.C04
